@@ -1631,8 +1631,33 @@ def _replace(eng, st, recv, args, kwargs, line):
     yield st, vstr(r)
 
 
+def _codec_args(args, kwargs, line):
+    """(errors mode) of a str.encode / bytes.decode call; only UTF-8 is modelled."""
+    enc = args[0] if args else kwargs.get('encoding')
+    if enc is not None:
+        e = z3.simplify(enc.t) if enc.ty.kind == 'str' else None
+        if e is None or not z3.is_string_value(e) or \
+                e.as_string().lower().replace('_', '-') not in ('utf-8', 'utf8'):
+            raise core.EngineError('codec other than UTF-8 at line %d' % line)
+    err = args[1] if len(args) > 1 else kwargs.get('errors')
+    mode = 'strict'
+    if err is not None:
+        e = z3.simplify(err.t) if err.ty.kind == 'str' else None
+        if e is None or not z3.is_string_value(e):
+            raise core.EngineError('non-constant codec error mode at line %d' % line)
+        mode = e.as_string()
+    if set(kwargs) - {'encoding', 'errors'} or len(args) > 2:
+        raise core.EngineError('codec call form at line %d' % line)
+    return mode
+
+
+utf8_dec_lossy = z3.Function('utf8_dec_lossy', S, S)
+
+
 @libm('str', 'encode')
 def _encode(eng, st, recv, args, kwargs, line):
+    if _codec_args(args, kwargs, line) != 'strict':
+        raise core.EngineError('str.encode error mode at line %d' % line)
     r = utf8_enc(recv.t)
     eng.fact(st, utf8_ok(r))
     eng.fact(st, utf8_dec(r) == recv.t)
@@ -1641,6 +1666,15 @@ def _encode(eng, st, recv, args, kwargs, line):
 
 @libm(('bytes', 'bytearray'), 'decode')
 def _decode(eng, st, recv, args, kwargs, line):
+    mode = _codec_args(args, kwargs, line)
+    if mode in ('replace', 'ignore', 'backslashreplace', 'surrogateescape'):
+        # a lossy decode never raises; on valid input it is the strict decode
+        r = utf8_dec_lossy(recv.t)
+        eng.fact(st, z3.Implies(utf8_ok(recv.t), r == utf8_dec(recv.t)))
+        yield st, vstr(r)
+        return
+    if mode != 'strict':
+        raise core.EngineError('bytes.decode error mode %r at line %d' % (mode, line))
     for s1, ok in eng.fork(st, utf8_ok(recv.t)):
         if ok:
             yield s1, vstr(utf8_dec(recv.t))
